@@ -32,6 +32,8 @@ pub enum Cause {
     CloseRaceEof { at_ms: u64 },
     /// peer stops reading (finite pipe), then the owner closes at t
     StalledPeer { close_at_ms: u64 },
+    /// owner close() at the instant an inbound frame (cmd, id) arrives
+    CloseRaceFrame { at_ms: u64, cmd: u8, id: u32 },
 }
 
 #[derive(Clone, Debug)]
@@ -256,6 +258,7 @@ async fn run_client(p: Params) -> Outcome {
         let sess = sess.clone();
         let log = log.clone();
         let first_stream = first_stream.clone();
+        let cause_for_opener = p.cause.clone();
         handles.push(("opener", tokio::spawn(async move {
             if t == 1 {
                 tokio::time::sleep(Duration::from_millis(500)).await;
@@ -282,7 +285,8 @@ async fn run_client(p: Params) -> Outcome {
                 Some(r) => lg(&log, format!("opener{t}: dest write ok={}", r.is_ok())),
             }
             // pending open: must resolve
-            let answered = id == 1; // the scripted server only ever answers stream 1
+            // the scripted server only ever answers stream 1 (or the id of an injected SYNACK)
+            let answered = id == 1 || matches!(cause_for_opener, Cause::CloseRaceFrame { cmd: SYNACK, id: i, .. } if i == id);
             match within(rx).await {
                 None => {
                     vl(
@@ -398,6 +402,22 @@ async fn run_client(p: Params) -> Outcome {
                 match within(sess2.close()).await {
                     None => vl(&log2, "C09:close-blocks", "close() racing EOF blocks forever".into()),
                     Some(_) => {}
+                }
+            })));
+        }
+        Cause::CloseRaceFrame { at_ms, cmd, id } => {
+            let sess2 = sess.clone();
+            let log2 = log.clone();
+            let inj2 = inj.clone();
+            handles.push(("closer", tokio::spawn(async move {
+                tokio::time::sleep(Duration::from_millis(at_ms)).await;
+                inj2.push(&enc(cmd, id, if cmd == PSH { b"zz" } else { b"" }));
+                // by default the receive loop gets to start on the frame before close() runs,
+                // so that a single deviation inside its handler already overlaps the two
+                crate::ctl::yield_once().await;
+                crate::ctl::hpoint("h.c09.before_close").await;
+                if within(sess2.close()).await.is_none() {
+                    vl(&log2, "C09:close-blocks", format!("close() racing an inbound {} frame blocks forever", cmd_name(cmd)));
                 }
             })));
         }
@@ -604,6 +624,22 @@ async fn run_server(p: Params) -> Outcome {
                 }
             })));
         }
+        Cause::CloseRaceFrame { at_ms, cmd, id } => {
+            let sess2 = sess.clone();
+            let log2 = log.clone();
+            let inj2 = inj.clone();
+            handles.push(("closer", tokio::spawn(async move {
+                tokio::time::sleep(Duration::from_millis(at_ms)).await;
+                inj2.push(&enc(cmd, id, if cmd == PSH { b"zz" } else { b"" }));
+                // by default the receive loop gets to start on the frame before close() runs,
+                // so that a single deviation inside its handler already overlaps the two
+                crate::ctl::yield_once().await;
+                crate::ctl::hpoint("h.c09.before_close").await;
+                if within(sess2.close()).await.is_none() {
+                    vl(&log2, "C09:close-blocks", format!("close() racing an inbound {} frame blocks forever", cmd_name(cmd)));
+                }
+            })));
+        }
         Cause::StalledPeer { close_at_ms } => {
             let sess2 = sess.clone();
             let log2 = log.clone();
@@ -735,6 +771,14 @@ pub fn all_params(tier: Tier) -> Vec<(Params, usize)> {
             }
             causes.push((Cause::CloseRaceEof { at_ms }, if thorough { 2 } else { 1 }));
         }
+        for (cmd, id) in [(FIN, 1u32), (FIN, 2), (FIN, 9), (PSH, 1), (SYNACK, 2), (SYN, 5), (HEART_REQ, 0), (HEART_RESP, 0), (SETTINGS, 0), (SERVER_SETTINGS, 0), (UPDATE_PADDING, 0), (ALERT, 0)] {
+            for at_ms in [700u64, 0] {
+                if at_ms == 0 && !thorough {
+                    continue;
+                }
+                causes.push((Cause::CloseRaceFrame { at_ms, cmd, id }, if thorough { 2 } else { 1 }));
+            }
+        }
         causes.push((Cause::OwnerClose { at_ms: 700, twice: false, shutdown: ShutdownMode::Err }, 1));
         causes.push((Cause::OwnerClose { at_ms: 700, twice: true, shutdown: ShutdownMode::Never }, 1));
         causes.push((Cause::StalledPeer { close_at_ms: 3000 }, 1));
@@ -757,7 +801,14 @@ pub fn all_params(tier: Tier) -> Vec<(Params, usize)> {
 pub fn items(tier: Tier) -> Vec<DxItem> {
     all_params(tier)
         .into_iter()
-        .map(|(p, b)| DxItem::new(params_json(&p), make(p), b))
+        .map(|(p, b)| {
+            let long = matches!(p.cause, Cause::CloseRaceFrame { .. } | Cause::CloseRaceEof { .. });
+            let mut it = DxItem::new(params_json(&p), make(p), b);
+            if long {
+                it.exec.long_yield = 4;
+            }
+            it
+        })
         .collect()
 }
 
